@@ -176,4 +176,61 @@ def run(ctx):
                     if got != want:
                         res.violation("ctor-route-aliased", f"after another driver's route was shortened in place, {cls.__name__}({host!r}) -> {got!r:.200}, expected {want!r:.200}", {"path": host})
                 judge(host, True, "after-pop")
+
+    # ---- end to end: route strings handed to generic_message, and the driver's route after helper calls ------------------------------------
+    # (a) a route string outside the grammar (odd number of segments, unknown port, ...) is refused by every driver class - no
+    #     shortcut expansion applies to it - and nothing reaches a device over an invented route;
+    # (b) the route a driver was constructed with is the route it keeps using, whatever helpers were called in between.
+    if ctx.shard == 0:
+        from vlib.bench import Bench, ScenarioDead
+        from vlib import devices, refslc
+        from vlib import reftarget as rt
+        for kind in ("cip", "logix", "slc") * (2 if quick else 10):
+            try:
+                b = Bench(rng)
+                slot = rng.choice([0, 2, 5])
+                if kind == "slc":
+                    dev = refslc.SLCDevice(rt.Identity(name="1747-L552/C SLC 5/05"), rng, b.log, refslc.DataTable.random(rng))
+                else:
+                    dev = devices.ControllerDevice(devices.random_identity(rng), rng, b.log)
+                dev.responder = lambda rq: (0, (), b"\x01\x00")
+                other_slot = rng.choice([s_ for s_ in (1, 3, 7) if s_ != slot])
+                other = devices.ControllerDevice(devices.random_identity(rng), rng, b.log)
+                t = rt.RefTarget(rng, front=dev, routes={((1, slot),): dev, ((1, other_slot),): other}, log=b.log)
+                b.set_target(t)
+                path = f"{b.host}/{slot}" if kind != "cip" else f"{b.host}/bp/{slot}"
+                drv = {"cip": p.CIPDriver, "logix": p.LogixDriver, "slc": p.SLCDriver}[kind](path, **({"init_tags": False} if kind == "logix" else {}))
+                st, out = b.call("open", drv.open)
+                if st != "ok" or not out:
+                    res.ev()
+                    res.violation(f"e2e-open:{kind}", f"{type(drv).__name__}({path!r}).open() -> {out!r:.160}", {"path": path})
+                    b.close()
+                    continue
+                for bad in ["3", str(other_slot), "bp", "bp/1/enet", "1/2/3", "nosuchport/1", "bp/256", ""]:
+                    if bad == "":
+                        continue
+                    n_before = sum(len(d_.journal) for d_ in (dev, other))
+                    st, out = b.call("gm", drv.generic_message, service=0x0E, class_code=0x01, instance=1, attribute=1, connected=False, unconnected_send=True, route_path=bad)
+                    res.ev()
+                    res.seen("gm-route-string", kind, bad)
+                    delivered = sum(len(d_.journal) for d_ in (dev, other)) - n_before
+                    if delivered or (st == "ok" and out):
+                        res.violation(f"malformed-route-string-accepted:{kind}", f"{type(drv).__name__}.generic_message(route_path={bad!r}) -> {out!r:.120}; {delivered} request(s) reached a device "
+                                                                                f"(a route string outside the grammar must be refused)", {"route": bad})
+                    elif st == "exc" and not isinstance(out, (RequestError, DataError, p.PycommError)):
+                        res.violation(f"malformed-route-string-foreign-exception:{kind}:{type(out).__name__}", f"generic_message(route_path={bad!r}) raised {out!r:.120}", {"route": bad})
+                # (b) helper call in between, then a routed request: it must still travel the constructed route
+                b.call("get_module_info", drv.get_module_info, other_slot)
+                n_dev, n_other = len(dev.journal), len(other.journal)
+                st, out = b.call("gm", drv.generic_message, service=0x0E, class_code=0x01, instance=1, attribute=1, connected=False, unconnected_send=True)
+                res.ev()
+                res.seen("route-after-helper", kind)
+                if len(dev.journal) != n_dev + 1 or len(other.journal) != n_other or tuple(dev.journal[-1]["route"]) != ((1, slot),):
+                    res.violation(f"route-changed-by-helper:{kind}", f"{type(drv).__name__}({path!r}): after get_module_info({other_slot}) a routed message went to "
+                                                                      f"{'the other module' if len(other.journal) != n_other else 'nowhere'} instead of the route {((1, slot),)!r} of the path string", {"path": path})
+                b.call("close", drv.close)
+                b.log.violations.clear()
+                b.close()
+            except ScenarioDead:
+                continue
     return res
